@@ -1,5 +1,7 @@
 import CoapVerif.Lemmas.Replay
 import CoapVerif.Lemmas.ReplayEndp
+import CoapVerif.Lemmas.ReplayReqNonce
+import CoapVerif.Model.ReplayB2
 import CoapVerif.Spec.Replay
 /-
 C15 — OSCORE never accepts a replay or reuses a nonce; forgeries leave no trace.
@@ -388,14 +390,194 @@ theorem response_nonce_is_peers (cfg : Cfg) (f start : Nat) (ops : List NOp) (hs
   obtain ⟨U, g⟩ := nfinal_inv cfg ops _ [] 0 (ninv_start f start hs) (by omega)
   exact sent_none_ofReq ⟨U, _, g, by omega⟩ op n h
 
-/- NOT proved (kept as the target; what is proved of it: the `own` half above, for all histories, and the step facts):
-  theorem nonce_never_reused (cfg) (f start) (ops : List NOp) (hs) (hl) (hb : cfg.b12 = false)
-      (hc : ∀ op ∈ ops, ∀ f', op ≠ .crash f') : (nonces (nrun cfg (Endp.start f start) ops)).Nodup
-The `ofReq` half needs the invariant "the associations that can protect a response hold pairwise different request
-nonces, each recorded in the replay window and not used yet" along `Good`.  It is FALSE without the two hypotheses:
-after a crash the replay window is fresh (with B.1.2 off the peer's old requests are accepted again — RFC 8613 7.5.1),
-and with B.1.2 on a request that is decrypted but then dropped for a wrong Echo value leaves its association behind
-(`w1.3 r1 e2.4 w1.3 r1`), see design/C15.md. -/
+/-- **A response that re-uses the nonce of the request it answers does so at most once per accepted request**: along
+every sender-side history of an endpoint — requests of the peer arrive (authentic or forged, any token, any Partial IV,
+with / without / with a wrong Echo value, Observe or not, replayed, the same datagram under another token), the endpoint
+sends requests of its own (tokens in the same table), responses of every kind for ANY token (also for tokens it was
+never given a request for, also twice), Echo challenges — with Appendix B.1.2 on or off, any window, any `ssn_freq` and
+start value, as long as the process is not restarted, the request nonces handed to the AEAD (`Nonce.ofReq`, always with
+the Sender Key) are pairwise distinct.  No hypothesis on the application.  Needs the R15c fix (a request caught by the
+Appendix B.1.2 trap leaves no association): invariant `RInv` — every association that can protect a response holds
+the nonce of a request whose Partial IV is recorded in the replay window and that no response has used yet. -/
+theorem request_nonce_used_at_most_once (cfg : Cfg) (f start : Nat) (ops : List NOp)
+    (hc : ∀ op ∈ ops, ∀ f', op ≠ .crash f') : (ofReqsOf (nonces (nrun cfg (Endp.start f start) ops))).Nodup :=
+  (nrun_ofReqs cfg ops (Endp.start f start) [] 0 [] (rinv_start 0) hc).2
+
+/-- the same for every life of the endpoint: after any history `ops1` (restarts included) and a restart, the request
+nonces used until the next restart are pairwise distinct -/
+theorem request_nonce_used_at_most_once_per_life (cfg : Cfg) (f start : Nat) (ops1 : List NOp) (f' : Nat) (ops2 : List NOp)
+    (hc : ∀ op ∈ ops2, ∀ f'', op ≠ .crash f'') :
+    (ofReqsOf (nonces (nrun cfg (nfinal cfg (Endp.start f start) (ops1 ++ [.crash f'])) ops2))).Nodup := by
+  rw [nfinal_append]
+  exact (nrun_ofReqs cfg ops2 _ [] 0 [] (rinv_start 0) hc).2
+
+/-- **No (Sender Key, nonce) pair is used twice** in a life of the endpoint: the own nonces (`own_nonce_never_reused`)
+and the request nonces (`request_nonce_used_at_most_once`) together — every nonce handed to the AEAD along a history
+without a restart is different from every other one. -/
+theorem nonce_never_reused (cfg : Cfg) (f start : Nat) (ops : List NOp) (hs : start ≤ SEQ_MAX + 2 ^ 32)
+    (hl : ops.length < 2 ^ 63) (hc : ∀ op ∈ ops, ∀ f', op ≠ .crash f') :
+    (nonces (nrun cfg (Endp.start f start) ops)).Nodup :=
+  nodup_of_halves _ (own_nonce_never_reused cfg f start ops hs hl) (request_nonce_used_at_most_once cfg f start ops hc)
+
+/- Why "without a restart": after a crash the replay window is fresh; with Appendix B.1.2 off the peer's old request is
+accepted again and answered under the same nonce (RFC 8613 7.5.1 — a deployment that restarts needs B.1.2 or a persisted
+window; witness below).  With B.1.2 on, `accept_at_most_once_across_restarts` (under `EchoFresh`) gives distinct accepted
+Partial IVs over all lives; lifting `request_nonce_used_at_most_once` over restarts along it is not done. -/
+
+/-! ### Appendix B.2, client side: a response that does not verify leaves the security context untouched
+
+`ReplayB2.recvForged`: the response branch of `coap_oscore_decrypt_pdu` while `b_2_step != NONE` takes the kid context of
+the OSCORE option — not authenticated — and re-derives the context (`oscore_update_ctx`) before the response is verified.
+After fix 74ce665 every error exit puts `b_2_step` and the ID Context (with it Sender Key, Recipient Key, Common IV)
+back. -/
+
+theorem b2Update_cases {s s1 : ReplayB2.B2} {kc : Option (List Nat)} (h : ReplayB2.b2Update s kc = some s1) :
+    s1.step = 3 ∨ (s1.step = 5 ∧ s1.idctx = s.idctx) := by
+  unfold ReplayB2.b2Update at h
+  cases kc with
+  | none => simp at h; subst h; right; exact ⟨rfl, rfl⟩
+  | some w =>
+    dsimp only at h
+    cases hu : ReplayB2.unwrap w with
+    | none => rw [hu] at h; cases h
+    | some k =>
+      rw [hu] at h
+      dsimp only at h
+      by_cases hk : k ≠ s.idctx
+      · rw [if_pos hk] at h; injection h with h; subst h; left; rfl
+      · rw [if_neg hk] at h; injection h with h; subst h; right; exact ⟨rfl, rfl⟩
+
+/-- **A forged Appendix B.2 message leaves the context untouched**: whatever the step of the exchange (also `NONE`),
+whatever the ID Context, whatever the kid context field of the OSCORE option (absent, empty, not a CBOR byte string, any
+byte string, the current ID Context itself) — a response that does not verify is dropped and `b_2_step` and the ID
+Context (hence every key derived from it) are exactly as before. -/
+theorem forged_b2_response_no_trace (s : ReplayB2.B2) (kc : Option (List Nat)) :
+    (ReplayB2.recvForged s kc).1 = s ∧ (ReplayB2.recvForged s kc).2 = .drop := by
+  unfold ReplayB2.recvForged
+  by_cases h0 : s.step = 0
+  · rw [if_pos h0]; exact ⟨rfl, rfl⟩
+  · rw [if_neg h0]
+    dsimp only
+    cases hu : ReplayB2.b2Update s kc with
+    | none => exact ⟨rfl, rfl⟩
+    | some s1 =>
+      dsimp only
+      refine ⟨?_, rfl⟩
+      rcases b2Update_cases hu with h3 | ⟨h5, hid⟩
+      · rw [if_pos h3]
+      · have : ¬ s1.step = 3 := by rw [h5]; decide
+        rw [if_neg this]
+        dsimp only
+        rw [hid]
+
+/-- any number of forged responses, any interleaving of kid contexts: every one is dropped and the state never moves -/
+theorem forged_b2_history_no_trace (kcs : List (Option (List Nat))) : ∀ s : ReplayB2.B2,
+    ∀ x ∈ ReplayB2.run s kcs, x = (Verdict.drop, s) := by
+  induction kcs with
+  | nil => intro s x hx; cases hx
+  | cons kc r ih =>
+    intro s x hx
+    obtain ⟨h1, h2⟩ := forged_b2_response_no_trace s kc
+    simp only [ReplayB2.run, List.mem_cons] at hx
+    rw [h1, h2] at hx
+    rcases hx with rfl | hx
+    · rfl
+    · exact ih s x hx
+
+theorem srvUpdate_cases {s s1 : ReplayB2.Srv} {w : List Nat} {b : Bool} (h : ReplayB2.srvUpdate s w = some (s1, b)) :
+    s1.r2 = s.r2 ∧ (b = false → ReplayB2.findExact s.ctxs w ≠ none ∧ s1 = { s with step := 0 }) := by
+  unfold ReplayB2.srvUpdate at h
+  cases hf : ReplayB2.findExact s.ctxs w with
+  | some i =>
+    rw [hf] at h
+    simp only [Option.some.injEq, Prod.mk.injEq] at h
+    obtain ⟨h1, h2⟩ := h
+    subst h1
+    exact ⟨rfl, fun _ => ⟨by simp, rfl⟩⟩
+  | none =>
+    rw [hf] at h
+    dsimp only at h
+    split at h
+    · split at h
+      · cases h
+      · split at h
+        · cases h
+        · split at h
+          · simp only [Option.some.injEq, Prod.mk.injEq] at h
+            obtain ⟨h1, h2⟩ := h
+            subst h1; subst h2
+            exact ⟨rfl, fun hb => by cases hb⟩
+          · simp only [Option.some.injEq, Prod.mk.injEq] at h
+            obtain ⟨h1, h2⟩ := h
+            subst h1; subst h2
+            exact ⟨rfl, fun hb => by cases hb⟩
+    · cases h
+
+/-- **Server side: a forged Appendix B.2 request leaves the context untouched.**  For every state of the server (any step,
+`oscore_r2` set or not, any set of security contexts) and every kid context field: a request that does not verify is
+answered 4.01 / 4.00 and `b_2_step`, `oscore_r2` and the security contexts (their number, the ID Context of each) are
+exactly as before — no context is left behind at step 2, the ID Context of the exchange is not replaced at step 4.
+Hypothesis: the kid context field is not literally the ID Context of an existing context, or no exchange is under way
+(such a request takes the ordinary path, which ends the exchange: `b_2_step = NONE` — "server finished" — before the
+verification; the genuine request #2 sets it again). -/
+theorem forged_b2_request_no_trace (s : ReplayB2.Srv) (w : List Nat)
+    (h : ReplayB2.findExact s.ctxs w = none ∨ s.step = 0) :
+    (ReplayB2.recvForgedReq s w).1 = s ∧ (ReplayB2.recvForgedReq s w).2 ≠ .acc := by
+  unfold ReplayB2.recvForgedReq
+  cases hu : ReplayB2.srvUpdate s w with
+  | none => exact ⟨rfl, by simp⟩
+  | some x =>
+    obtain ⟨s1, b⟩ := x
+    obtain ⟨hr, hb⟩ := srvUpdate_cases hu
+    cases b with
+    | true =>
+      refine ⟨?_, by simp⟩
+      simp only [if_true]
+      cases s1; cases s
+      simp only at hr
+      simp [hr]
+    | false =>
+      refine ⟨?_, by simp⟩
+      obtain ⟨hne, hs1⟩ := hb rfl
+      simp only [Bool.false_eq_true, if_false]
+      rcases h with h | h
+      · exact absurd h hne
+      · rw [hs1]; cases s; simp only at h; simp [h]
+
+/-- any number of forged requests in any order: the server never moves -/
+theorem forged_b2_requests_no_trace (ws : List (List Nat)) : ∀ s : ReplayB2.Srv,
+    (∀ w ∈ ws, ReplayB2.findExact s.ctxs w = none ∨ s.step = 0) → ∀ x ∈ ReplayB2.runSrv s ws, x.2 = s := by
+  induction ws with
+  | nil => intro s _ x hx; cases hx
+  | cons w r ih =>
+    intro s h x hx
+    have h1 := (forged_b2_request_no_trace s w (h w List.mem_cons_self)).1
+    simp only [ReplayB2.runSrv, List.mem_cons] at hx
+    rw [h1] at hx
+    rcases hx with rfl | hx
+    · rfl
+    · exact ih s (fun w' hw' => h w' (List.mem_cons_of_mem _ hw')) x hx
+
+-- the server defect: before the fix every forged request #1 left a security context behind (step 2), and during an
+-- exchange (R2 = 01 … 08 handed out) one forged request replaced the ID Context R2 || ID1 (step 4)
+example : ReplayB2.recvForgedReqUnpatched ⟨0, none, [none]⟩ [0x42, 0xc0, 0xc1] = ⟨2, none, [none, some [0xc0, 0xc1]]⟩ := by decide
+example : ReplayB2.recvForgedReqUnpatched ⟨0, some [1, 2, 3, 4, 5, 6, 7, 8], [some [1, 2, 3, 4, 5, 6, 7, 8, 0x11]]⟩ [0x41, 0xc0] =
+    ⟨4, some [1, 2, 3, 4, 5, 6, 7, 8], [some [0xc0]]⟩ := by decide
+example : ReplayB2.recvForgedReq ⟨0, none, [none]⟩ [0x42, 0xc0, 0xc1] = (⟨0, none, [none]⟩, .rej400) ∧
+    ReplayB2.recvForgedReq ⟨0, none, [none]⟩ [0x5f, 1] = (⟨0, none, [none]⟩, .rej401) ∧
+    ReplayB2.findExact [none] [0x42, 0xc0, 0xc1] = none := by decide
+
+-- the defect: what the code did before the fix with ONE forged response carrying the kid context c0 … c7 (ID1 =
+-- 11 22 … 88): ID Context c0 … c7 11 … 88, step 3 — and the next one prepends again
+example : ReplayB2.recvForgedUnpatched ⟨1, [0x11, 0x22, 0x33, 0x44, 0x55, 0x66, 0x77, 0x88]⟩
+    (some [0x48, 0xc0, 0xc1, 0xc2, 0xc3, 0xc4, 0xc5, 0xc6, 0xc7]) =
+    ⟨3, [0xc0, 0xc1, 0xc2, 0xc3, 0xc4, 0xc5, 0xc6, 0xc7, 0x11, 0x22, 0x33, 0x44, 0x55, 0x66, 0x77, 0x88]⟩ := by decide
+example : ReplayB2.run ⟨1, [0x11, 0x22]⟩ [some [0x42, 0xc0, 0xc1], none, some [0x5f, 0x01], some [], some [0x42, 0x11, 0x22]] =
+    [(.drop, ⟨1, [0x11, 0x22]⟩), (.drop, ⟨1, [0x11, 0x22]⟩), (.drop, ⟨1, [0x11, 0x22]⟩), (.drop, ⟨1, [0x11, 0x22]⟩),
+     (.drop, ⟨1, [0x11, 0x22]⟩)] := by decide
+-- the CBOR unwrapping: short form, one-byte length form, truncated, not enough bytes
+example : ReplayB2.unwrap [0x42, 7, 8] = some [7, 8] ∧ ReplayB2.unwrap [0x58, 2, 7, 8, 9] = some [7, 8] ∧
+    ReplayB2.unwrap [0x5f, 1] = none ∧ ReplayB2.unwrap [0x43, 7, 8] = none ∧ ReplayB2.unwrap [] = none := by decide
 
 /-! ### Non-vacuity: concrete histories (the minimal witnesses of the defects fixed in libcoap, see design/C15.md) -/
 
@@ -512,5 +694,27 @@ example : ownsOf (nonces (nrun ⟨32, true⟩ (Endp.start 3 0) [.reqIn 1 ⟨true
   decide
 example : (nstep ⟨32, false⟩ (nfinal ⟨32, false⟩ (Endp.start 3 0) [.reqIn 1 ⟨true, 5, .none⟩ false]) (.sendRsp 1 false false)).2
     = .sent none (.ofReq 5) := by decide
+
+-- request nonces: why "no restart" is needed (Appendix B.1.2 off: the old request is accepted again in the new life)
+example : ofReqsOf (nonces (nrun ⟨32, false⟩ (Endp.start 1 0) [.reqIn 1 ⟨true, 5, .none⟩ false, .sendRsp 1 false false, .crash 1,
+    .reqIn 1 ⟨true, 5, .none⟩ false, .sendRsp 1 false false])) = [5, 5] := by decide
+-- the R15c defect history: request 5 (token 1) with a wrong Echo value is dropped by the Appendix B.1.2 trap, the Echo
+-- exchange completes with 4, the datagram with Partial IV 5 arrives under token 3 and is answered, then a response goes
+-- out for token 1: `err` (before the fix the association of the dropped request was still there: `ofReq 5` twice);
+-- two dropped requests with one Partial IV under two tokens: nothing to answer them with
+example : nrun ⟨32, true⟩ (Endp.start 1 0) [.reqIn 1 ⟨true, 5, .bad⟩ false, .reqIn 2 ⟨true, 4, .good⟩ false, .sendRsp 2 false false,
+    .reqIn 3 ⟨true, 5, .none⟩ false, .sendRsp 3 false false, .sendRsp 1 false false] =
+    [.verdict .drop, .verdict .acc, .sent none (.ofReq 4), .verdict .acc, .sent none (.ofReq 5), .err] := by decide
+example : nrun ⟨32, true⟩ (Endp.start 1 0) [.reqIn 1 ⟨true, 5, .bad⟩ false, .reqIn 2 ⟨true, 5, .bad⟩ false, .sendRsp 1 false false,
+    .sendRsp 2 false false] = [.verdict .drop, .verdict .drop, .err, .err] := by decide
+-- the hypothesis of request_nonce_used_at_most_once / nonce_never_reused on a non-trivial history
+example : (∀ op ∈ [NOp.reqIn 1 ⟨true, 5, .none⟩ false, .reqIn 2 ⟨true, 7, .none⟩ false, .sendRsp 2 false false, .sendRsp 1 false false],
+    ∀ f', op ≠ .crash f') ∧
+    nonces (nrun ⟨32, false⟩ (Endp.start 1 0) [.reqIn 1 ⟨true, 5, .none⟩ false, .reqIn 2 ⟨true, 7, .none⟩ false, .sendRsp 2 false false,
+      .sendRsp 1 false false]) = [.ofReq 7, .ofReq 5] := by
+  refine ⟨?_, by decide⟩
+  intro op h f'
+  simp only [List.mem_cons, List.not_mem_nil, or_false] at h
+  rcases h with rfl | rfl | rfl | rfl <;> simp
 
 end Coap.C15
